@@ -39,6 +39,42 @@ pub fn spec_check(ctx: &Ctx, p: &Program, w: &Written) -> bool {
         );
         return false;
     }
+    // limits as decoded independently: an explicit override as given, otherwise the declared range of
+    // the attribute types (value and float precision), present only when every member is known
+    for (i, (e, g)) in exp.clouds.iter().zip(scene.clouds.iter()).enumerate() {
+        let tl = |n: &str| e.proto.iter().find(|r| r.ns.is_none() && r.name == n).map(|r| crate::c14::type_limits(&r.ty));
+        let same = |a: &Option<m::LVal>, b: &Option<m::LVal>| a.map(|v| v.key()) == b.map(|v| v.key());
+        let exp_int: Option<[Option<m::LVal>; 2]> = match (&e.meta.intensity_limits, tl("intensity")) {
+            (Some(l), _) => Some(*l),
+            (None, Some(t)) if t.0.is_some() && t.1.is_some() => Some([t.0, t.1]),
+            _ => None,
+        };
+        let exp_col: Option<[Option<m::LVal>; 6]> = match (&e.meta.color_limits, tl("colorRed"), tl("colorGreen"), tl("colorBlue")) {
+            (Some(l), ..) => Some(*l),
+            (None, Some(r), Some(gn), Some(b)) if [r.0, r.1, gn.0, gn.1, b.0, b.1].iter().all(|x| x.is_some()) => Some([r.0, r.1, gn.0, gn.1, b.0, b.1]),
+            _ => None,
+        };
+        let complete = |l: &[Option<m::LVal>]| l.iter().all(|x| x.is_some());
+        let ok_int = match (&exp_int, &g.meta.intensity_limits) {
+            (Some(a), Some(b)) => same(&a[0], &b[0]) && same(&a[1], &b[1]),
+            (Some(a), None) => !complete(a), // incomplete limits are left out by design
+            (None, None) => true,
+            (None, Some(_)) => false,
+        };
+        let ok_col = match (&exp_col, &g.meta.color_limits) {
+            (Some(a), Some(b)) => a.iter().zip(b.iter()).all(|(x, y)| same(x, y)),
+            (Some(a), None) => !complete(a),
+            (None, None) => true,
+            (None, Some(_)) => false,
+        };
+        if !ok_int || !ok_col {
+            ctx.violation(
+                format!("{P}/R10/data3D.limits"),
+                format!("data3D[{i}]: limits decoded independently: intensity {:?} (expected {exp_int:?}), colour {:?} (expected {exp_col:?}) || program: {}", g.meta.intensity_limits, g.meta.color_limits, describe(p)),
+            );
+            return false;
+        }
+    }
     // free-standing blobs, decoded independently
     for (k, ((off, len), data)) in w.run.blobs.iter().zip(blob_payloads(p).iter()).enumerate() {
         match e57spec::decode::blob_bytes(&w.bytes, *off, *len) {
